@@ -1,16 +1,18 @@
 (* C03 - every instruction survives the round trip with exact opcode and immediates.
-   Statements only.  Tables [decode_plain] / [encode_plain] / [map_idx] are
-   REGENERATED from /repo on every run (Gen/Ops.v). *)
+   Statements only.  Tables [decode_plain] / [encode_plain] / [map_idx] / [marks_unreachable]
+   are REGENERATED from /repo on every run (Gen/Ops.v); the control-stack parser
+   (Model/ParseFn.v), the traversal (Model/Traversal.v) and the emitter (Model/EmitFn.v) are
+   executable models tied to the code by the body-level correspondence run. *)
 From Coq Require Import NArith ZArith List Bool. Import ListNotations.
-From WV Require Import Gen.Ops Proofs.Codec.
+From WV Require Import Gen.Ops Model.Common Model.IR Model.ParseFn Model.ParseSpec Model.Traversal
+                       Model.EmitFn Model.EmitSpec Model.BodySpec Proofs.Codec Proofs.Body.
 Open Scope N_scope.
 
-(* For every supported operator (one constructor of [wop] per arm of
-   append_instruction), whatever the parse-time index->id maps [i2id] and the
-   emit-time id->index maps [id2i] are: decoding then encoding yields the SAME
-   operator with the SAME immediates (constants bit for bit, alignment exponent,
-   offset, lanes, shuffle, heap/value types), every index immediate renamed by the
-   composite renumbering rho = id2i o i2id of its own index space.
+(* (1) OPERATORS.  For every supported operator (one constructor of [wop] per arm of
+   append_instruction), whatever the parse-time index->id maps [i2id] and the emit-time
+   id->index maps [id2i] are: decoding then encoding yields the SAME operator with the SAME
+   immediates (constants bit for bit, alignment exponent, offset, lanes, shuffle, heap/value
+   types), every index immediate renamed by rho = id2i o i2id of its own index space.
    [imm_ok] = what the validator guarantees; [known_big_offset] = the listed finding. *)
 Theorem c03_codec : forall (i2id id2i rho : space -> N -> N),
   (forall s i, id2i s (i2id s i) = rho s i) ->
@@ -22,6 +24,49 @@ Theorem c03_big_offset_refuted :
   exists o, imm_ok o /\ known_big_offset o /\ ~ rt_ok (fun _ i => i) (fun _ i => i) (fun _ i => i) o.
 Proof. exact big_offset_refuted. Qed.
 
+(* (2) BODIES.  For every well-bracketed body [l] (any nesting depth, any mix of live and dead
+   code; [wfl] = what validation guarantees: branch depths in range, operators decodable, block
+   types resolvable): parsing the operator stream and emitting the IR again yields exactly the
+   declarative normal form [nf_body] (Model/BodySpec.v): nop dropped, each sequence cut after its
+   first unconditional transfer, every `if` given an `else`, same nesting, branch depths UNCHANGED,
+   block signatures in canonical form, each remaining operator = encode (decode o). No panic. *)
+Theorem c03_body : forall cx ecx ety rs l eloc p0,
+  wfl cx 1 l ->
+  (forall o, decode_plain (px_i2id cx) o <> None -> encode_plain (ex_id2i ecx) (dec cx o) <> None) ->
+  exists ar st fuel,
+    parse_body cx ety rs (flat_list l ++ [(WEnd, eloc)]) = Ok ar /\
+    emit_body ecx fuel ar 0 p0 = Ok st /\
+    out st = map snd (nf_body cx ecx l eloc) /\
+    imap st = tag_positions ecx p0 (nf_body cx ecx l eloc).
+Proof. exact roundtrip_body. Qed.
+
+(* (3) the operators of the normal form are the INPUT operators with renamed indices *)
+Theorem c03_nf_op : forall (i2id id2i rho : space -> N -> N),
+  (forall s i, id2i s (i2id s i) = rho s i) ->
+  forall cx ecx o, px_i2id cx = i2id -> ex_id2i ecx = id2i -> imm_ok o -> ~ known_big_offset o ->
+  nf_op cx ecx o = WOp (map_idx rho o).
+Proof. exact nf_op_codec. Qed.
+
+(* (4) nothing survives in dead position; no nop survives *)
+Theorem c03_dead_dropped : forall cx ecx u l, u = true -> fst (nf_list cx ecx u l) = [].
+Proof. exact nf_dead_dropped. Qed.
+Theorem c03_no_nop : forall cx ecx u l,
+  (forall o, encode_plain (ex_id2i ecx) (dec cx o) <> None) ->
+  Forall (fun x => snd x <> WNop) (fst (nf_list cx ecx u l)).
+Proof. exact nf_no_nop. Qed.
+
 Check codec_nonvacuous.
+(* non-vacuity of (2): a concrete body with dead code, an else-less if and nested branches is wfl *)
+Example c03_body_nonvacuous :
+  let cx := {| px_i2id := fun _ i => i; px_types := [([], [], false); ([VT_I32], [VT_I32], false)] |} in
+  let ex := [RPlain (W_I32Const 1%Z) 10; RBlock BT_Empty [RBr 1 12; RPlain W_Drop 13; RBlock (BT_Val VT_I32) [RNop 15] 14 16] 11 17;
+             RIf (BT_Func 1) [RBrIf 0 19] None 18 20; RPlain W_Drop 27] in
+  wfl cx 1 ex.
+Proof. cbn. repeat split; try discriminate; try (apply Nat.ltb_lt; reflexivity); auto. Qed.
+
 Print Assumptions c03_codec.
 Print Assumptions c03_big_offset_refuted.
+Print Assumptions c03_body.
+Print Assumptions c03_nf_op.
+Print Assumptions c03_dead_dropped.
+Print Assumptions c03_no_nop.
